@@ -19,7 +19,9 @@ void vh_mul_case(int route, int m, int l, int n, int kindA, int kindB, int param
   int acc = (route == R_ADDNAIVE || route == R_ADDM4RM || route == R_ADDMUL || route == R_ADDMULEVEN || route == R__ADDMUL || route == R_ADDSQR || route == R_ADDMP);
   int clear = 1;
   if (route == R_NAIVE_T || route == R_VA || route == R__M4RM) { clear = param & 1; param >>= 1; acc = !clear; }
-  int need_c = acc || !cnull || route == R_NAIVE_T || route == R_VA || route == R__M4RM || route == R_MULEVEN || route == R_DJB;
+  /* the accumulate routes that document / accept C == NULL ("zero matrix") */
+  int nullacc = acc && cnull && (route == R_ADDMUL || route == R_ADDMP || route == R_ADDM4RM) && vh_randint(0, 2) == 0;
+  int need_c = (acc && !nullacc) || !cnull || route == R_NAIVE_T || route == R_VA || route == R__M4RM || route == R_MULEVEN || route == R_DJB;
   mzd_t *C = need_c ? vh_new(m, n) : NULL;
   if (C) { if (acc) vh_fill_kind(C, 0); else if (route != R_DJB) vh_fill_kind(C, vh_randint(0, 3) ? 0 : 2); }
   mzd_t *BT = NULL;
